@@ -263,6 +263,11 @@ async fn exec_step(ctx: &mut Ctx, step: &Value) -> (String, String) {
                 let d = Arc::new(ctx.handle(&on).await?);
                 let p = WriteParams { mode: WriteMode::Append, ..Default::default() };
                 InsertBuilder::new(d).with_params(&p).execute(vec![batch(&ctx.cols, &[vec![row, row + 100]])]).await?;
+                if ctx.mutate == "branch-append-leaks-to-main" && !is_main(&on) && !is_clone(&on) {
+                    // emulates a branch write that commits to the root location as well
+                    let m = Arc::new(Dataset::open(&ctx.root).await?);
+                    InsertBuilder::new(m).with_params(&p).execute(vec![batch(&ctx.cols, &[vec![row, row + 100]])]).await?;
+                }
                 Ok(())
             }
             .await;
@@ -312,11 +317,17 @@ async fn exec_step(ctx: &mut Ctx, step: &Value) -> (String, String) {
             let force = step.get("force").and_then(|v| v.as_bool()).unwrap_or(false);
             let r: lance::Result<()> = async {
                 let mut d = ctx.handle(&via).await?;
-                if force {
+                let r = if force {
                     d.force_delete_branch(&name).await
                 } else {
                     d.delete_branch(&name).await
+                };
+                if ctx.mutate == "delete-removes-first-segment" {
+                    // emulates a get_cleanup_path that always returns tree/<first segment>
+                    let first = name.split('/').next().unwrap();
+                    let _ = std::fs::remove_dir_all(FsPath::new(&ctx.root).join("tree").join(first));
                 }
+                r
             }
             .await;
             res_of(&r)
